@@ -5,6 +5,7 @@ package main
 // over the passified acyclic CFG; every obligation becomes one SMT query.
 
 import (
+	"os"
 	"fmt"
 	"go/constant"
 	"go/token"
@@ -44,6 +45,9 @@ type Frame struct {
 	id      int
 	free    map[*ssa.FreeVar]string // closure bindings (terms)
 	freeLoc map[*ssa.FreeVar]*Loc
+	// provenance (in the terms of the function under verification) of the arguments bound to the parameters
+	// of an inlined callee, by parameter name
+	paramProv map[string]string
 	defers  []*deferRec
 	top     bool
 	// for invariants / spec evaluation
@@ -234,8 +238,22 @@ func (vc *VC) execFunction(fr *Frame, st *State, args []string) (*State, []strin
 				}
 				alts = append(alts, vc.shapeOf(v))
 			}
-			if known {
-				vc.setShape(res[k], shAlt(alts...))
+			if os.Getenv("GVC_DBG_WRAP") != "" {
+				fmt.Fprintf(os.Stderr, "DBG ret %s depth=%d params=%d prov=%v known=%v\n", fn.Name(), fr.depth, len(fn.Params), fr.paramProv, known)
+			}
+			wrap := fr.depth > 0 && isStringType(rt) && len(fn.Params) == 1 && fr.paramProv[fn.Params[0].Name()] != ""
+			if known || wrap {
+				sh := shAlt(alts...)
+				if fr.depth > 0 && len(fn.Params) == 1 && !hasProvAtom(sh) && hasValueOrChoice(sh) && fr.paramProv[fn.Params[0].Name()] != "" {
+					// a helper that maps its only argument to a string without naming a field itself (a choice between
+					// literals, a formatted number): its whole result is a value of that argument
+					if sh.K == "alt" {
+						sh = &Shape{K: "alt", Alts: sh.Alts, Guard: sh.Guard, Src: fr.paramProv[fn.Params[0].Name()]}
+					} else {
+						sh = &Shape{K: "alt", Alts: []*Shape{sh}, Src: fr.paramProv[fn.Params[0].Name()]}
+					}
+				}
+				vc.setShape(res[k], sh)
 			}
 		}
 	}
